@@ -1380,6 +1380,9 @@ class C12(Prop):
                 for c in chains:
                     lines += c.lines() + [""]
                 ivs = [list(ch.gen_interval(rng, chains)) for _ in range(6)]
+            if rng.random() < 0.04 and lines:
+                n = rng.choice([65536, 65537, 70000])
+                lines[rng.randrange(len(lines))] = rng.choice(["chain 0 " + "N" * n + " 9 + 0 9 b 9 + 0 9 1", "x" * n])
             yield {"kind": "enc", "lines": lines, "ivs": ivs, "seed": rng.randint(0, 2 ** 31)}
 
     def variants(self, case):
@@ -1388,13 +1391,14 @@ class C12(Prop):
         lines = case["lines"]
         base = ch.render_lines(lines, "\n", True)
         out = [("lf", [("c", base)])]
+        big = len(base) > 4000
         for eol in ("\n", "\r\n"):
             for fin in (True, False):
                 if not fin and lines and lines[-1] == "":
                     continue
                 data = ch.render_lines(lines, eol, fin)
                 out.append(("%s fin=%s" % ("crlf" if eol != "\n" else "lf", fin), [("c", data)]))
-                for ev in ch.chunkings(rng, data, k=2):
+                for ev in (ch.chunkings(rng, data, k=2)[1:] if big else ch.chunkings(rng, data, k=2)):
                     out.append(("%s fin=%s chunks=%d" % ("crlf" if eol != "\n" else "lf", fin, len(ev)), ev))
                 if len(data) <= 80:
                     for cut in range(1, len(data)):
@@ -1655,7 +1659,9 @@ class C17(Prop):
             "<= 40 (thorough) over {read_line_raw, read_line, k calls on a fresh lines(), k calls on a fresh sections()}; judge = a "
             "single cursor over the list of lines (from one `lines()` pass over the same bytes): every operation must observe "
             "exactly the next lines, in order, and a yielded section must end the consumption at its terminating line; "
-            "non-trivial = the history mixes >= 3 kinds of operation and yields a section; distinct by (file, history)")
+            "5% of the files carry a line of 64 KiB or more (a header with a huge contig name, or junk); non-trivial = the history mixes >= 3 kinds of operation and yields a section; distinct by (file, history)")
+
+    _canon_cache = {}
 
     def cases(self, rng, tier):
         for _ in range(400 if tier == "quick" else 15000):
@@ -1668,6 +1674,14 @@ class C17(Prop):
             raw = [l.encode() for l in lines]
             if rng.random() < 0.1 and raw:
                 raw[rng.randrange(len(raw))] = b"\xff\xfe"
+            if rng.random() < 0.05 and raw:
+                # a very long line (around and beyond 64 KiB): a header with a huge contig name, or junk
+                n = rng.choice([65535, 65536, 65537, 70000, 131072 + 5])
+                k = rng.randrange(len(raw))
+                if rng.random() < 0.5:
+                    raw[k] = ("chain 0 " + "N" * n + " 9 + 0 9 b 9 + 0 9 1").encode()
+                else:
+                    raw[k] = b"x" * n
             nops = rng.randint(1, 12 if tier == "quick" else 40)
             ops = []
             for _ in range(nops):
@@ -1693,12 +1707,32 @@ class C17(Prop):
         im, mm = [blank_norm(x.split(" / ")) for x in i.split(" ; ")], [blank_norm(x.split(" / ")) for x in m.split(" ; ")]
         if im != mm:
             ev.corr = "impl %r vs model %r" % (i[:300], m[:300])
-        # the lines of the file, by one pass each of read_line_raw and lines() over the same bytes
-        rawl = ctx.impl.ask("raw " + src).split(" ")[:-1]
-        canon = ctx.impl.ask("lines " + src).split(" ; ")[:-1]
-        if len(rawl) != len(canon):
-            ev.judge = "raw pass and lines() pass disagree on the number of lines"
-            return ev
+        # ground truth: the lines of the file as it was written (not as any reader reports them)
+        rawl, canon = [], []
+        nl = len(raw)
+        for k, t in enumerate(raw):
+            last = (k == nl - 1)
+            if last and not case["final_newline"] and t == b"":
+                break                       # an empty last text without terminator is no line at all
+            n = len(t) + (0 if (last and not case["final_newline"]) else len(eol))
+            try:
+                t.decode("utf-8")
+                valid = True
+            except UnicodeDecodeError:
+                valid = False
+            if not valid:
+                rawl.append("utf8")
+                canon.append("utf8")
+                continue
+            rawl.append("L%d:%s" % (n, hx(t)))
+            if t in self._canon_cache:
+                canon.append(self._canon_cache[t])
+            else:
+                r = ctx.impl.ask("line " + hx(t))
+                c = r.split(" print=")[0][3:] if r.startswith("ok") else "err"
+                if len(t) < 200:
+                    self._canon_cache[t] = c
+                canon.append(c)
         cur = 0
         kinds = set()
         yielded = False
@@ -1861,8 +1895,12 @@ class C13(Prop):
             if not i.startswith("ok"):
                 return ev
             canon, pr = i.rsplit(" print=", 1)
+            pr, _, eq = pr.partition(" eq=")
             if pr == "err":
                 ev.judge = "Display failed"
+                return ev
+            if eq != "true":
+                ev.judge = "the printed text does not parse back to an EQUAL record (`==` after a read-only query): %r" % t
                 return ev
             i2 = ctx.impl.ask("line " + pr)
             ev.requests.append("line " + pr)
@@ -1895,6 +1933,10 @@ class C13(Prop):
             if not r.startswith("ok "):
                 ev.judge = "the sections of an accepted file could not be re-serialised: " + r[:100]
                 return ev
+            r, _, eq = r.partition(" eq=")
+            if eq != "true":
+                ev.judge = "the re-serialised file does not parse to EQUAL sections (`==` after stepping through the originals)"
+                return ev
             src2 = "c" + r[4:] if len(r) > 4 else "-"
             secs2 = ctx.impl.ask("sections %s 1000" % src2)
             i2 = ctx.impl.ask("liftover %s %s" % (src2, ivs))
@@ -1904,7 +1946,7 @@ class C13(Prop):
             elif i2 != i:
                 ev.judge = "re-serialised file builds a machine with different answers: %s vs %s" % (i2[:200], i[:200])
             else:
-                r3 = ctx.impl.ask("reser " + src2)
+                r3 = ctx.impl.ask("reser " + src2).partition(" eq=")[0]
                 if r3 != r:
                     ev.judge = "canonical text does not print back byte-identically (second re-serialisation differs)"
             ev.tags.append("file:ok")
@@ -2224,7 +2266,7 @@ class C18(Prop):
     rule = ("rustc compiles the probe crate harness/sendsync against /repo (static Send + Sync assertions for Machine, "
             "ContiguousIntervalPair, the answer type and every error type; 'static for Machine); the source inventory finds no "
             "`unsafe`, Cell/RefCell/Rc, `static mut` or thread_local!; generated files x query lists are answered on one thread "
-            "and on 8 threads sharing one Arc<Machine> (300 rounds each, different offsets and strides, every query issued 1-3 times in a row) and compared with the sequential answers "
+            "and on 8 threads sharing one Arc<Machine>, on 12 FRESH machines each (first accesses released by a barrier; 300 rounds on the first, 12 on the others, different offsets and strides, every query issued 1-3 times in a row), and compared with the sequential answers of a separate machine "
             "and with the model; non-trivial = a query list with >= 1 non-empty answer; distinct by (file, queries)")
     trusted = ["rustc's Send/Sync auto-trait checking and borrow checker (the argument for real interleavings)",
                "the probe crate /verif/harness/sendsync"]
